@@ -92,6 +92,10 @@ class SArr(ex.XArr):
         if isinstance(key, np.ndarray) and key.dtype == object and key.size and isinstance(key.ravel()[0], SI):
             base = np.asarray(self, dtype=object)
             vals = np.asarray(val, dtype=object).ravel()
+            if self.ikind:
+                c_ = ex.ctx()
+                c_.truncations = getattr(c_, "truncations", 0) + 1
+                vals = np.array([ex._trunc(v) for v in vals], dtype=object)
             for j in range(base.size):
                 e = _elem(base.flat[j]) if base.flat[j] is not None else z3.RealVal(0)
                 for k in range(key.size):
@@ -148,7 +152,10 @@ class NP20(ex.XNP):
         return sarr([ex.R(0)] * np.size(a), np.shape(a))
 
     def empty_like(self, a, dtype=None, **k):
-        return sarr([ex.R(0)] * np.size(a), np.shape(a))
+        out = sarr([ex.R(0)] * np.size(a), np.shape(a))
+        if dtype is None and getattr(a, "ikind", False):
+            out.ikind = True  # numpy: the result inherits the (integer) dtype of `a`
+        return out
 
     def searchsorted(self, a, v, side="left", **k):
         a = np.asarray(a, dtype=object).ravel()
@@ -226,6 +233,9 @@ def source_area_part(run, utils, shapes, account=True):
         gv = [c.real("g%d" % i) for i in range(n)]
         c.assume += [x.v >= 0 for x in fv]
         layout = "C"
+        int_g = False
+        if len(shape) == 3 and shape[2] == "I":  # integer-typed base field (class map, sector index)
+            shape, int_g = (shape[0], shape[1]), True
         if len(shape) == 3:  # (ny, nx, "T"): the same logical arrays passed as transposed (non C-contiguous) views
             shape, layout = (shape[0], shape[1]), "transposed view"
             fa = sarr(fv, (shape[1], shape[0])).T
@@ -235,8 +245,22 @@ def source_area_part(run, utils, shapes, account=True):
             gv = [ga[idx] for idx in np.ndindex(shape)]
         else:
             fa, ga = sarr(fv, shape), sarr(gv, shape)
+        if int_g:
+            ga.ikind = True
+            layout = "C, integer-typed g"
         res = utils.get_source_area(fa, ga)
         scn = dict(function="get_source_area", shape=list(shape), memory_layout=layout)
+        if int_g:
+            tr = getattr(c, "truncations", 0)
+            if account:
+                o = run.ob("integer_typed_base_field_never_truncates_the_result")
+                o["queries"] += 1
+                o["sat" if tr else "unsat"] += 1
+                run.queries["sat" if tr else "unsat"] += 1
+                run.nontrivial.add(("integer_typed_base_field", repr(scn)))
+            if tr:
+                found.append(("integer_typed_base_field_never_truncates_the_result", scn, dict(truncating_stores=tr)))
+                continue
         if np.shape(res) != tuple(shape):
             found.append(("result_keeps_the_shape", scn, {}))
             continue
@@ -403,6 +427,8 @@ def replay(rec):
             fm = np.array([m.get("f%d" % i, 0.0) for i in range(nn)])
             gm = np.array([m.get("g%d" % i, float(i)) for i in range(nn)])
             cases.append((fm.reshape(1, nn), gm.reshape(1, nn)))
+    cases.append((rng.random((2, 3)), np.array([[3, 1, 2], [0, 5, 4]])))
+    cases.append((rng.random((2, 2)), np.array([[3, 1], [2, 0]], dtype=np.int32)))
     for f, g in cases:
         r = get_source_area(f, g)
         if r.shape != g.shape:
@@ -441,6 +467,7 @@ CANARIES = [
     ("ascending_sort", {"utils": [("    order = np.argsort(g_flat)[::-1]\n", "    order = np.argsort(g_flat)\n")]}, "area"),
     ("sorted_by_f_not_g", {"utils": [("    order = np.argsort(g_flat)[::-1]\n", "    order = np.argsort(f_flat)[::-1]\n")]}, "area"),
     ("memory_order_flatten", {"utils": [("    f_flat = f.ravel()\n", "    f_flat = f.ravel()[::-1][::-1] if False else np.asarray(f).T.ravel() if np.ndim(f) == 2 and f.shape[0] != f.shape[1] else f.ravel()\n")]}, "area"),
+    ("result_allocated_like_g", {"utils": [("g_rescaled = np.empty(g_flat.shape, dtype=M_shifted.dtype)", "g_rescaled = np.empty_like(g_flat)")]}, "area_int"),
     ("count_off_by_one", {"plotting.footprint": [("    area = (k + 1) * cell_area", "    area = k * cell_area")]}, "contour"),
     ("level_of_next_cell", {"plotting.footprint": [("level = sorted_vals[min(k, len(sorted_vals) - 1)]", "level = sorted_vals[min(k + 1, len(sorted_vals) - 1)]")]}, "contour"),
     ("searchsorted_right", {"plotting.footprint": [("k = np.searchsorted(cumsum, target)", "k = np.searchsorted(cumsum, target, side=\"right\")")]}, "contour"),
@@ -477,7 +504,7 @@ def worker(args):
 
 def main(run):
     quick = run.tier == "quick"
-    area_shapes = [(1, 1), (1, 3), (2, 2), (1, 5), (2, 3), (2, 3, "T")] if quick else [(1, 1), (1, 3), (2, 2), (1, 5), (2, 3), (2, 3, "T"), (3, 2), (1, 6)]
+    area_shapes = [(1, 1), (1, 3), (2, 2), (1, 5), (2, 3), (2, 3, "T"), (2, 2, "I")] if quick else [(1, 1), (1, 3), (2, 2), (1, 5), (2, 3), (2, 3, "T"), (2, 2, "I"), (3, 2), (1, 6)]
     contour_shapes = [(2, 2), (2, 3)] if quick else [(2, 2), (2, 3), (3, 2), (2, 4)]
     run.explanation = (
         "The real get_source_area / extract_percentile_contour executed on z3 terms with argsort returning ANY sorting permutation "
@@ -507,7 +534,7 @@ def main(run):
         res = replay(c_)
         run.report(dict(c_, property=PID, replay=res, cmd="./check C20 --replay <this file>"), res["confirmed"])
     run.bounds = dict(source_area_shapes=area_shapes, contour_shapes=contour_shapes, base_functions=5)
-    cj = [(name, (kind, [(2, 3)] if kind == "area" else [(2, 2)], patch, False)) for name, patch, kind in CANARIES]
+    cj = [(name, ("area" if kind.startswith("area") else kind, [(2, 2, "I")] if kind == "area_int" else ([(2, 3)] if kind == "area" else [(2, 2)]), patch, False)) for name, patch, kind in CANARIES]
     import concurrent.futures as cf
     import multiprocessing as mp
 
